@@ -176,6 +176,8 @@ impl ExecutorInner {
                             None => break,
                         };
 
+                        #[cfg(feature = "verif-hooks")]
+                        crate::verif_hooks::probe(crate::verif_hooks::site::ST_BEFORE_RUN, 0);
                         task.run();
 
                         if self.abort_signal.is_set() {
